@@ -25,10 +25,10 @@ def coll_setup(it): C10.setup_coll(it)
 def vrouter_setup(it): C06.router_world(it)
 def router_setup(it):
     C15.router_world(it)
-    it.world.contract_info = lambda it_, addr: OK(Agg('cosmwasm_std::ContractInfoResponse', [7, Str('deployer'), SOME(Str('owner')), False, NONE()]))
+    it.world.cinfo = dict(code_id=7, creator='deployer', admin='owner')
 def router_setup_noadmin(it):
     C15.router_world(it)
-    it.world.contract_info = lambda it_, addr: OK(Agg('cosmwasm_std::ContractInfoResponse', [7, Str('deployer'), NONE(), False, NONE()]))
+    it.world.cinfo = dict(code_id=7, creator='deployer', admin=None)
 def emgr_setup(it):
     EM = 'white_whale_std::epoch_manager::epoch_manager::'
     w = it.world; w.contract = 'epoch_manager_contract'
